@@ -301,7 +301,10 @@ impl<'a> StatementAnalyzer<'a> {
         if let Some(Token::NumericLiteral(_)) = self.program().peek_next_token() {
             self.evaluate_goto_or_gosub_statement()
         } else {
-            self.evaluate_statement()
+            self.program().enter_nested()?;
+            let result = self.evaluate_statement();
+            self.program().leave_nested();
+            result
         }
     }
 }
